@@ -15,6 +15,7 @@ import (
 type Clause struct {
 	Kind  string // requires, ensures, invariant, decreases, assigns, ...
 	Label string // optional [label]
+	Using []string // optional [label using tag, tag, ...]: proof hint, the assumptions to try first
 	Text  string
 	Expr  ast.Expr
 	Loop  int // for loop clauses
@@ -56,6 +57,7 @@ type AfterClause struct {
 	Before bool
 	Assert bool // ghost assertion (proved, then assumed) instead of an assignment
 	Label  string
+	Using  []string
 	Var    string
 	Expr  ast.Expr
 	Text  string
@@ -114,7 +116,17 @@ var clauseKw = map[string]bool{
 	"sort": true, "closedtype": true, "immutable": true, "ghostvar": true, "ghostfield": true, "free": true, "extern": true, "assume-note": true, "end": true,
 }
 
-var labelRe = regexp.MustCompile(`^\[([A-Za-z0-9_.\-]+)\]\s*`)
+var labelRe = regexp.MustCompile(`^\[([A-Za-z0-9_.\-]+)(?:\s+using\s+([^\]]+))?\]\s*`)
+
+func splitUsing(s string) []string {
+	var out []string
+	for _, f := range strings.Split(s, ",") {
+		if f = strings.TrimSpace(f); f != "" {
+			out = append(out, f)
+		}
+	}
+	return out
+}
 
 func parseSpecExpr(text, file string, line int) (ast.Expr, error) {
 	e, err := parser.ParseExpr(text)
@@ -172,6 +184,7 @@ func ParseSpecFile(path, pkgName, pkgPath string, sf *SpecFile) error {
 			c := &Clause{Kind: kind, Line: rc.line, File: path, Free: free}
 			if m := labelRe.FindStringSubmatch(text); m != nil {
 				c.Label = m[1]
+				c.Using = splitUsing(m[2])
 				text = text[len(m[0]):]
 			}
 			c.Text = text
@@ -293,6 +306,9 @@ func ParseSpecFile(path, pkgName, pkgPath string, sf *SpecFile) error {
 			}
 			f2 := strings.Fields(rest)
 			n, err := strconv.Atoi(f2[0])
+			if f2[0] == "*" {
+				n, err = 0, nil // loop * invariant: holds at the head of every loop of the function
+			}
 			if err != nil {
 				return fmt.Errorf("%s:%d: bad loop ordinal", path, rc.line)
 			}
@@ -376,15 +392,17 @@ func ParseSpecFile(path, pkgName, pkgPath string, sf *SpecFile) error {
 			if strings.HasPrefix(tail, "assert") {
 				text := strings.TrimSpace(strings.TrimPrefix(tail, "assert"))
 				lbl := ""
+				var using []string
 				if m := labelRe.FindStringSubmatch(text); m != nil {
 					lbl = m[1]
+					using = splitUsing(m[2])
 					text = text[len(m[0]):]
 				}
 				e, err := parseSpecExpr(text, path, rc.line)
 				if err != nil {
 					return err
 				}
-				cur.After = append(cur.After, &AfterClause{Match: match, Before: kw == "before", Assert: true, Label: lbl, Expr: e, Text: text, Line: rc.line})
+				cur.After = append(cur.After, &AfterClause{Match: match, Before: kw == "before", Assert: true, Label: lbl, Using: using, Expr: e, Text: text, Line: rc.line})
 				break
 			}
 			tail = strings.TrimSpace(strings.TrimPrefix(tail, "set"))
